@@ -3,7 +3,7 @@
    with tr/loops.go) agree with the hand model.  The data source answer is the pair
    (history, err) with err = 0 for nil; FPG_At loc stands for `return hist[loc], nil`. *)
 From Coq Require Import ZArith List Bool Lia.
-From Verif Require Import C13.Model C13.Spec C13.Proofs.
+From Verif Require Import Base.GenLoop C13.Model C13.Spec C13.Proofs.
 From VerifGen Require Import GenChange.
 Import ListNotations.
 Open Scope Z_scope.
@@ -45,6 +45,46 @@ Lemma fold_left_ext {A B} (f g : A -> B -> A) : (forall a b, f a b = g a b) ->
   forall l a, fold_left f l a = fold_left g l a.
 Proof. intros H. induction l as [|x r IH]; intro a; cbn; [reflexivity|]. rewrite H. apply IH. Qed.
 
+Lemma loop_fold_ext {A S R} (f g : S -> A -> lstep S R) :
+  (forall s x, f s x = g s x) -> forall l s, loop_fold f l s = loop_fold g l s.
+Proof.
+  intros H. induction l as [|x l IH]; intro s; [reflexivity|].
+  rewrite !loop_fold_cons, H. destruct (g s x); [apply IH|reflexivity].
+Qed.
+
+(* the same scan leaving the loop (`break`) once the direct predecessor ver-1 is found: what follows
+   the loop, KB, runs on the state of that moment.  Nothing can be closer than ver-1, so the rest of
+   the scan would not change loc and max. *)
+Definition scan_step_b {R} (ver : Z) (KB : Z * Z * Z -> R) (st : Z * Z * Z) (x : elem) : lstep (Z * Z * Z) R :=
+  let '(i, loc, mx) := st in
+  if (e_ver x <? ver) && (mx <? e_ver x)
+  then (if e_ver x =? ver - 1 then LRet (KB (i, i, e_ver x)) else LNext (i + 1, i, e_ver x))
+  else LNext (i + 1, loc, mx).
+
+Lemma scan_stuck ver : forall l j loc,
+  fold_left (scan_step ver) l (j, loc, ver - 1) = (j + Z.of_nat (length l), loc, ver - 1).
+Proof.
+  induction l as [|x r IH]; intros j loc.
+  - cbn. rewrite Z.add_0_r. reflexivity.
+  - cbn [fold_left length]. unfold scan_step at 2.
+    replace ((e_ver x <? ver) && (ver - 1 <? e_ver x)) with false
+      by (symmetry; apply andb_false_iff; destruct (e_ver x <? ver) eqn:E; [right; apply Z.ltb_ge; apply Z.ltb_lt in E; lia|left; reflexivity]).
+    rewrite IH. f_equal. f_equal. lia.
+Qed.
+
+Lemma scan_break {R} ver (KB : Z * Z * Z -> R) :
+  (forall i i' loc mx, KB (i, loc, mx) = KB (i', loc, mx)) ->
+  forall l st,
+    match loop_fold (scan_step_b ver KB) l st with LRet r => r | LNext s => KB s end
+    = KB (fold_left (scan_step ver) l st).
+Proof.
+  intros Hi. induction l as [|x r IH]; intros [[i loc] mx]; [reflexivity|].
+  rewrite loop_fold_cons. cbn [fold_left]. unfold scan_step_b, scan_step at 2.
+  destruct ((e_ver x <? ver) && (mx <? e_ver x)); [|apply IH].
+  destruct (e_ver x =? ver - 1) eqn:E; [|apply IH].
+  apply Z.eqb_eq in E. rewrite E, scan_stuck. apply Hi.
+Qed.
+
 (* no data source error: the regenerated function returns what the model's find_previous_elem
    returns for a data source that answers with this history *)
 Definition interp_fpg (h : list elem) (e : elem) (r : fpg_res) : option fp_res :=
@@ -60,8 +100,24 @@ Lemma gen_find_previous_node_ok h e ign :
 Proof.
   unfold gen_find_previous_node, find_previous_elem, find_previous. cbv zeta.
   change (negb (0 =? 0)) with false. cbv iota.
-  rewrite (fold_left_ext _ (scan_step (e_ver e))).
-  2:{ intros [[i loc] mx] x. unfold scan_step. destruct ((e_ver x <? e_ver e) && (mx <? e_ver x)); reflexivity. }
+  (* the code after the loop, as a function of the loop state *)
+  set (KB0 := fun st : Z * Z * Z => let '(_, loc, _) := st in
+                if loc =? -1 then (if ign then FPG_Nil else FPG_NoVisible) else FPG_At loc).
+  first
+    [ (* a plain scan *)
+      rewrite (fold_left_ext _ (scan_step (e_ver e)))
+        by (intros [[i loc] mx] x; unfold scan_step; destruct ((e_ver x <? e_ver e) && (mx <? e_ver x)); reflexivity)
+    | (* a scan that stops at the direct predecessor *)
+      rewrite (loop_fold_ext _ (scan_step_b (e_ver e) KB0))
+        by (intros [[i loc] mx] x; unfold scan_step_b; cbv beta zeta;
+            destruct ((e_ver x <? e_ver e) && (mx <? e_ver x)); [destruct (e_ver x =? e_ver e - 1)|]; reflexivity);
+      match goal with
+      | |- _ = ?rhs =>
+          change (interp_fpg h e (match loop_fold (scan_step_b (e_ver e) KB0) h (0, -1, -1) with
+                                  | LRet r => r | LNext s => KB0 s end) = rhs)
+      end;
+      rewrite (scan_break (e_ver e) KB0) by (intros; reflexivity) ];
+  subst KB0; cbv beta.
   destruct (fold_left (scan_step (e_ver e)) h (0, -1, -1)) as [[i' loc'] mx'] eqn:Ef.
   pose proof (scan_spec (e_ver e) h h [] (-1) (-1) None i' loc' mx' eq_refl (or_introl (conj eq_refl eq_refl)) Ef) as H.
   destruct H as [[Hl Hb]|[Hl (o & Hb & Hn)]].
@@ -106,12 +162,6 @@ Qed.
 (* ================= wave 4: addUpdate and Change ================= *)
 From Verif Require Import Base.GenLoop C13.GenSupport.
 
-Lemma loop_fold_ext {A S R} (f g : S -> A -> lstep S R) :
-  (forall s x, f s x = g s x) -> forall l s, loop_fold f l s = loop_fold g l s.
-Proof.
-  intros H. induction l as [|x l IH]; intro s; [reflexivity|].
-  rewrite !loop_fold_cons, H. destruct (g s x); [apply IH|reflexivity].
-Qed.
 
 (* one per-kind loop of addUpdate *)
 Definition au_body (nft : bool) (ds : datasource) (ign : bool) (ty : atype) (vis : bool)
